@@ -1,7 +1,9 @@
 /* Engine `win` (C01, C02): drives /repo/src/window.c (+ rectset.c, renderbuffer.c, term.c) through the public API,
  * on a terminal whose driver is the harness-owned grid driver (griddrv.h).
  *
- *   new <C01|C02> <lines> <cols> <a|p|r> <pen>            terminal + root window (id 0); scroll oracle accept/partial/refuse
+ *   new <C01|C02> <lines> <cols> <a|p|r|m> <pen>          terminal + root window (id 0); scroll oracle accept/partial/refuse,
+ *                                                         or m: the library's own mock terminal instead of the grid driver
+ *                                                         (no resize / scrollmode then)
  *   win <id> <parent> <top> <left> <lines> <cols> <flags> <pen>     flags: subset of r(oot-parent) h(idden) l(owest) s(teal), or -
  *   beh <id> <instr>...                                   expose-handler program of a window (default: P)
  *   close|show|hide|raise|raisefront|lower|lowerback <id>
@@ -13,6 +15,7 @@
  *   pen: pen=N (NULL) | pen=fg:bg:b with each field an integer or x (absent)
  *   instr: P | E:t:l:n:k | T:l:c:hex | C:l:c:cp | S:t:l:n:k | K | N:bg:b | X:d:r | L:t:l:n:k
  *          | e:dt:dl:dn:dk | t:dl:dc:hex | c:dl:dc:cp | s:dt:dl:dn:dk      (lower case: relative to the handed rectangle)
+ *          | Z:id | Z:id:t:l:n:k | z:dt:dl:dn:dk     tickit_window_expose from inside the handler (z: own window, relative)
  *
  * Observation (one line per operation):  r=<ret> T=<tree> E=<expose events> G=<grid or ->
  *   tree:   id,parent,top,left,lines,cols,visible,children(dot separated or -) joined by |   (closed window: id,x)
@@ -23,6 +26,7 @@
 #include "hcommon.h"
 #include "tickit.h"
 #include "griddrv.h"
+#include "tickit-mockterm.h"
 #include <stdint.h>
 #include <sys/time.h>
 
@@ -30,6 +34,7 @@
 #define MAXSHIFT 64
 
 static GridDrv *gd;
+static TickitMockTerm *mt;       /* second configuration: the library's own mock terminal (scroll oracle m) */
 static TickitTerm *tt;
 static TickitWindow *wins[MAXW];
 static int nwins;
@@ -168,6 +173,24 @@ static void run_prog(int id, const char *prog, const TickitRect *rect, TickitRen
       case 'X':
         if(nf == 3) tickit_renderbuffer_translate(rb, atoi(f[1]), atoi(f[2]));
         break;
+      case 'Z':   /* tickit_window_expose from inside the handler */
+        if(nf == 2 || nf == 6) {
+          int target = atoi(f[1]);
+          if(target >= 0 && target < nwins && !closedw[target]) {
+            if(nf == 2) tickit_window_expose(wins[target], NULL);
+            else {
+              TickitRect r = { .top = atoi(f[2]), .left = atoi(f[3]), .lines = atoi(f[4]), .cols = atoi(f[5]) };
+              tickit_window_expose(wins[target], &r);
+            }
+          }
+        }
+        break;
+      case 'z':
+        if(nf == 5) {
+          TickitRect r = { .top = bt + atoi(f[1]), .left = bl + atoi(f[2]), .lines = bn + atoi(f[3]), .cols = bk + atoi(f[4]) };
+          tickit_window_expose(wins[id], &r);
+        }
+        break;
       default: break;
     }
     free(icopy);
@@ -224,23 +247,53 @@ static void glyph_chars(int g, char *out)
   else { out[0] = '{'; out[1] = '{'; }
 }
 
+static int first_cp(const char *b, size_t n)
+{
+  const unsigned char *u = (const unsigned char *)b;
+  if(!n) return 0;
+  if(u[0] >= 0xf0 && n >= 4) return ((u[0] & 0x07) << 18) | ((u[1] & 0x3f) << 12) | ((u[2] & 0x3f) << 6) | (u[3] & 0x3f);
+  if(u[0] >= 0xe0 && n >= 3) return ((u[0] & 0x0f) << 12) | ((u[1] & 0x3f) << 6) | (u[2] & 0x3f);
+  if(u[0] >= 0xc0 && n >= 2) return ((u[0] & 0x1f) << 6) | (u[1] & 0x3f);
+  return u[0];
+}
+
 static void dump_grid(void)
 {
   obs(" G=");
-  size_t n = (size_t)gd->cols * 5;
+  int lines, cols;
+  tickit_term_get_size(tt, &lines, &cols);
+  size_t n = (size_t)cols * 5;
   char *row = malloc(n + 2);
-  for(int l = 0; l < gd->lines; l++) {
-    for(int c = 0; c < gd->cols; c++) {
-      GDCell *cell = gd_cell(gd, l, c);
-      glyph_chars(cell->glyph, row + 5 * c);
-      row[5 * c + 2] = (cell->fg >= -1 && cell->fg <= 40) ? '0' + cell->fg + 1 : '!';
-      row[5 * c + 3] = (cell->bg >= -1 && cell->bg <= 40) ? '0' + cell->bg + 1 : '!';
-      row[5 * c + 4] = cell->attrs == 0 ? '0' : cell->attrs == 1 ? '1' : '!';
+  for(int l = 0; l < lines; l++) {
+    for(int c = 0; c < cols; c++) {
+      int glyph, fg, bg, attrs;
+      if(mt) {
+        /* what the library's mock terminal displays */
+        char buf[64];
+        size_t len = tickit_mockterm_get_display_text(mt, buf, sizeof buf - 1, l, c, 1);
+        glyph = first_cp(buf, len < sizeof buf ? len : 0);
+        TickitPen *pen = tickit_mockterm_get_display_pen(mt, l, c);
+        fg = tickit_pen_get_colour_attr(pen, TICKIT_PEN_FG);
+        bg = tickit_pen_get_colour_attr(pen, TICKIT_PEN_BG);
+        attrs = (tickit_pen_get_bool_attr(pen, TICKIT_PEN_BOLD) ? 1 : 0)
+              | (tickit_pen_get_bool_attr(pen, TICKIT_PEN_ITALIC) ? 2 : 0)
+              | (tickit_pen_get_bool_attr(pen, TICKIT_PEN_REVERSE) ? 4 : 0)
+              | (tickit_pen_get_int_attr(pen, TICKIT_PEN_UNDER) << 8);
+      }
+      else {
+        GDCell *cell = gd_cell(gd, l, c);
+        glyph = cell->glyph; fg = cell->fg; bg = cell->bg; attrs = cell->attrs;
+      }
+      glyph_chars(glyph, row + 5 * c);
+      row[5 * c + 2] = (fg >= -1 && fg <= 40) ? '0' + fg + 1 : '!';
+      row[5 * c + 3] = (bg >= -1 && bg <= 40) ? '0' + bg + 1 : '!';
+      row[5 * c + 4] = attrs == 0 ? '0' : attrs == 1 ? '1' : '!';
     }
     row[n] = 0;
     obs("%s%s", l ? "|" : "", row);
   }
   free(row);
+  if(mt) tickit_mockterm_clearlog(mt);
 }
 
 static void finish(int ret, int events, int grid)
@@ -255,7 +308,7 @@ static void finish(int ret, int events, int grid)
 
 static void engine_begin(void)
 {
-  gd = NULL; tt = NULL; nwins = 0; evlen = 0; logging = 1;
+  gd = NULL; mt = NULL; tt = NULL; nwins = 0; evlen = 0; logging = 1;
   memset(wins, 0, sizeof wins); memset(closedw, 0, sizeof closedw);
   memset(behprog, 0, sizeof behprog); memset(nshift, 0, sizeof nshift);
 }
@@ -281,7 +334,7 @@ static void engine_end(void)
   }
   tickit_term_unref(tt);
   for(int i = 0; i < MAXW; i++) { free(behprog[i]); behprog[i] = NULL; }
-  tt = NULL; gd = NULL; nwins = 0;
+  tt = NULL; gd = NULL; mt = NULL; nwins = 0;
 }
 
 static int scrollmode_of(const char *s)
@@ -300,8 +353,14 @@ static void engine_op(int argc, char **argv)
     if(argc != 6 || tt) { obs("bad-op"); return; }
     int lines = atoi(argv[2]), cols = atoi(argv[3]);
     if(lines < 1 || cols < 1 || lines > 64 || cols > 120) { obs("bad-op"); return; }
-    gd = griddrv_new(lines, cols, scrollmode_of(argv[4]));
-    tt = griddrv_term(gd);
+    if(argv[4][0] == 'm') {
+      mt = tickit_mockterm_new(lines, cols);
+      tt = (TickitTerm *)mt;
+    }
+    else {
+      gd = griddrv_new(lines, cols, scrollmode_of(argv[4]));
+      tt = griddrv_term(gd);
+    }
     wins[0] = tickit_window_new_root(tt);
     nwins = 1;
     int isnull; TickitPen *pen = parse_pen(argv[5], &isnull);
@@ -345,19 +404,20 @@ static void engine_op(int argc, char **argv)
     return;
   }
   if(strcmp(op, "flush") == 0 && argc == 1) {
-    gd->clock++;
+    if(gd) gd->clock++;
     tickit_window_flush(wins[0]);
     finish(0, 1, 1);
     return;
   }
   if(strcmp(op, "resize") == 0 && argc == 3) {
     int lines = atoi(argv[1]), cols = atoi(argv[2]);
-    if(lines < 1 || cols < 1 || lines > 64 || cols > 120) { obs("bad-op"); return; }
+    if(lines < 1 || cols < 1 || lines > 64 || cols > 120 || mt) { obs("bad-op"); return; }
     griddrv_resize(gd, tt, lines, cols);
     finish(0, 0, 1);
     return;
   }
   if(strcmp(op, "scrollmode") == 0 && argc == 2) {
+    if(mt) { obs("bad-op"); return; }
     gd->scrollmode = scrollmode_of(argv[1]);
     finish(0, 0, 0);
     return;
